@@ -235,20 +235,29 @@ CLAIMED = {
         "technique": "Coq proof (structural induction over both trees; keyed-join lemma modulo Python key equality) + differential correspondence",
     },
     "C03": {
-        "text": ("18 theorems (Coq, no axioms) over a model of set_value / _apply_change / _update_node with its "
+        "text": ("34 theorems (Coq, no axioms) over a model of set_value / _apply_change / _update_node with its "
                  "whole-document identity-driven recursion and Nodes.make_new_node / wrap_type: the recursion "
                  "equals a pointwise substitution at the addressed position plus true aliases - as mapping values, "
                  "sequence elements and (since the repair 7612ed9) mapping KEYS (C03_set_exact, frame and pointwise "
                  "lemmas); a change that would rename an alias key onto an existing key is refused with a "
                  "DuplicateKey YAML Path error and modifies nothing (C03_key_collision_refused, every document; "
-                 "formerly known finding F24); well-formedness is preserved, a failing "
-                 "change leaves the document as it was, and any completed history of Set / Create / Delete "
-                 "operations refines a plain-data model over Doc.erase (C03_history_partial: replacements at "
-                 "locations, re-filed alias keys, removals, appended children; the guard no longer excludes alias "
-                 "keys nor - C04 F15 repaired - any located Delete; [name()] renames and matched set members stay "
-                 "outside).  The matched coordinates are inputs obtained from the real Processor.  Tie: "
+                 "formerly known finding F24); a [name()] key rename files the entry at the first key == parentref "
+                 "under the new name, place and value kept, and refuses an existing name with DuplicateKey "
+                 "(C03_rename_exact, every case of the CommentedMap branch); a failing "
+                 "change leaves the document as it was, and any completed history of Set (renames included) / "
+                 "Create / Delete operations refines a plain-data model over Doc.erase (C03_history: replacements at "
+                 "locations, re-filed keys, removals, appended children).  The invariants of a loaded document "
+                 "(doc_inv: containers carry the anchor attribute and sit at one place, keys pairwise different, "
+                 "keys / set members scalars) are a hypothesis on the FIRST document only and proved to survive "
+                 "every Set, Delete (C03_wf_preserved_delete) and Create (C03_wf_preserved_create: fresh "
+                 "identities); the guard that remains per change is alias_clean (the matched node is no set member "
+                 "and is one object) and, per Delete, that every coordinate locates a node.  End to end with the "
+                 "evaluator model (C03_set_end_to_end, C03_history_end_to_end_inv: the coordinates of every step "
+                 "are the locations of the nodes the path semantics selects there; guards inherited from C01 / C02 "
+                 "and, for a Create step, a bound of the model's identity counter).  Tie: "
                  "histories of length <= 4 (quick) / 6 (thorough) step by step against the real code, with a "
-                 "ruamel dump and strict reload after every step, plus a structured stream for aliases used as keys."),
+                 "ruamel dump and strict reload after every step, plus a structured stream for aliases used as keys; "
+                 "every step a second time with the coordinates gathered by the evaluator model instead of the real read side."),
         "design_ref": "DESIGN.md section 4 (C03), docs/C03.md",
         "note": NOTE_COMMON + "  ruamel's dump/reload is exercised by the judge on every step, not modelled; float() and literal_eval are oracles.",
         "technique": "Coq proof (substitution lemma over an identity-addressed document model; refinement to plain data by induction over the history) + differential correspondence",
@@ -376,7 +385,10 @@ CLAIMED = {
                  "resolves in the new document to the supplied value and "
                  "sequences are padded exactly to the requested index (C09_create_resolves_partial / "
                  "C09_create_pads_document_partial; guard = listed finding F25 tail below "
-                 "a set, _refuted witness; F10b null in the prefix is repaired and inside the theorems).  Tie: a deep snapshot (structure + identities + anchors) of the real "
+                 "a set, _refuted witness; F10b null in the prefix is repaired and inside the theorems); in SET mode the "
+                 "creation composes with _update_node on the yielded coordinate: walking the path in the final document "
+                 "reaches the node make_new_node built, holding the value in the requested format "
+                 "(C09_create_set_composes_partial, same guard; 13 theorems in the creation part).  Tie: a deep snapshot (structure + identities + anchors) of the real "
                  "document around every query; creation compared node by node with object identities."),
         "design_ref": "DESIGN.md section 4 (C09), docs/C09.md, docs/C09b.md",
         "note": NOTE_COMMON + "  Optional queries that create nodes are F16b / the creation half.",
